@@ -5,8 +5,11 @@ From PV Require Import Base.Prelude Model.Paths Model.Require Spec.PathSpec Proo
 (* ---- pins ---- *)
 Lemma pin_require_consts :
   default_lua_path = [63; 59; 63; 46; 108; 117; 97]          (* ?;?.lua *)
-  /\ require_filter_contains = [46; 47]                       (* ./ *)
-  /\ require_filter_prefix = [47]                             (* /  *)
+  /\ require_filter_atoms =
+     [(0, [], []);                 (* not require_path *)
+      (1, [46; 47], []);           (* b'./' in require_path *)
+      (2, [47], []);               (* require_path.startswith(b'/') *)
+      (3, [46; 46], [47])]         (* b'..' in require_path.split(b'/') *)
   /\ lua_path_separator = [59] /\ lua_path_placeholder = [63] (* ;  ? *)
   /\ os_path_sep = [47].
 Proof. repeat split; reflexivity. Qed.
@@ -177,10 +180,12 @@ Proof.
 Qed.
 End Req.
 
-(* ---- sane patterns: D?S with D empty or ending in '/', one placeholder, and a suffix S that
-        cannot complete a ".." ---- *)
+(* ---- sane patterns: D N?S - a directory part D (empty or ending in '/'), a name prefix N other
+        than ".", exactly one placeholder, and a suffix S without ".." component that cannot
+        complete a ".." (its first component is not "."); e.g. ?  ?.lua  lib/?.lua  ?/init.lua
+        /abs/lib/lib?.lua ---- *)
 Definition pattern_saneb (pat : bytes) : bool :=
-  is_empty (base_part (before_placeholder pat)) &&
+  negb (zlist_eqb (base_part (before_placeholder pat)) [46]) &&
   match from_placeholder pat with
   | 63 :: sfx =>
     negb (existsb (fun x => x =? 63) sfx)
@@ -233,20 +238,56 @@ Proof.
   - discriminate.
 Qed.
 
+Lemma first_component_nonempty req :
+  req <> [] -> starts_with [47] req = false -> hd [] (components req) <> [].
+Proof.
+  destruct req as [|c r]; [congruence|]. intros _ H. cbn [starts_with] in H. rewrite andb_true_r in H.
+  cbn [components]. rewrite Z.eqb_sym, H. destruct (components r); cbn [hd]; discriminate.
+Qed.
+
+(* a name prefix in front of the require string *)
+Lemma prefixed_no_parent n req :
+  noslash n -> n <> [46] -> req <> [] -> starts_with [47] req = false ->
+  Forall not_parent (components req) -> Forall not_parent (components (n ++ req)).
+Proof.
+  intros Hn Hd Hne Hrel Hreq.
+  destruct (components_app n req) as (l & x & Ha & Hab). rewrite Hab.
+  rewrite (components_noslash_one n Hn) in Ha.
+  assert (l = [] /\ x = n) as [-> ->].
+  { destruct l as [|l0 l1]; [injection Ha as <-; split; reflexivity|].
+    destruct l1; discriminate. }
+  cbn [app]. pose proof (first_component_nonempty req Hne Hrel) as Hh.
+  pose proof (components_nonnil req) as Hnn.
+  destruct (components req) as [|h t]; [congruence|]. cbn [hd tl] in *.
+  inversion Hreq as [|h' t' Hh1 Ht]; subst. constructor; [|exact Ht].
+  unfold not_parent. intros E. apply is_dotdot_eq in E.
+  destruct n as [|a [|b [|c r]]]; cbn [app] in E.
+  - subst h. apply Hh1. reflexivity.
+  - destruct h as [|h0 [|h1 hr]]; try discriminate. injection E as -> ->. apply Hd. reflexivity.
+  - destruct h; [apply Hh; reflexivity|discriminate].
+  - discriminate.
+Qed.
+
 Lemma sane_tail pat req :
-  pattern_saneb pat = true -> Forall not_parent (components req) ->
+  pattern_saneb pat = true -> req <> [] -> starts_with [47] req = false ->
+  Forall not_parent (components req) ->
   Forall not_parent (components (candidate_tail pat req)).
 Proof.
-  unfold pattern_saneb, candidate_tail. intros H Hreq.
-  apply andb_true_iff in H as [Hn H]. apply is_empty_spec in Hn. rewrite Hn. cbn [app].
+  unfold pattern_saneb, candidate_tail. intros H Hne Hrel Hreq0.
+  apply andb_true_iff in H as [Hn H].
+  set (n := base_part (before_placeholder pat)) in *.
+  assert (Hnd : n <> [46]).
+  { intros E. rewrite E in Hn. discriminate. }
+  assert (Hns : noslash n) by apply base_part_noslash.
+  pose proof (prefixed_no_parent n req Hns Hnd Hne Hrel Hreq0) as Hreq.
   destruct (from_placeholder pat) as [|q sfx]; [discriminate|].
   destruct (Z.eqb_spec q 63) as [->|N].
   2:{ destruct q as [|p|p]; try discriminate. do 6 (destruct p as [p|p|]; try discriminate). congruence. }
   apply andb_true_iff in H as [H H3]. apply andb_true_iff in H as [H1 H2].
   apply negb_true_iff in H1. apply negb_true_iff in H3.
   unfold replace_char. cbn [flat_map Z.eqb Pos.eqb]. fold (replace_char 63 req sfx).
-  rewrite replace_id by exact H1.
-  destruct (components_app req sfx) as (l & x & Ha & Hab). rewrite Hab.
+  rewrite replace_id by exact H1. rewrite app_assoc.
+  destruct (components_app (n ++ req) sfx) as (l & x & Ha & Hab). rewrite Hab.
   rewrite Ha in Hreq. apply Forall_app in Hreq as [Hl Hx]. inversion Hx as [|x' l' Hx1 _]; subst.
   assert (Hsfx : Forall not_parent (components sfx)).
   { apply Forall_forall. intros c Hc. rewrite forallb_forall in H2. specialize (H2 c Hc).
@@ -260,35 +301,60 @@ Proof.
 Qed.
 
 (* ---- the whole candidate list ---- *)
-Lemma require_filter_now_rel req : require_filter_now req = true -> starts_with [47] req = false.
+Lemma require_filter_now_unfold req :
+  require_filter_now req =
+  negb (is_empty req || (contains [46; 47] req || (starts_with [47] req ||
+        (existsb (zlist_eqb [46; 46]) (split_on 47 req) || false)))).
+Proof. reflexivity. Qed.
+
+Lemma no_dotdot_component cs :
+  existsb (zlist_eqb [46; 46]) cs = false -> Forall not_parent cs.
 Proof.
-  unfold require_filter_now, require_filter. intros H. apply negb_true_iff in H.
-  apply orb_false_iff in H as [_ H]. exact H.
+  induction cs as [|c cs IH]; intros H; [constructor|]. cbn [existsb] in H.
+  apply orb_false_iff in H as [Hc Hr]. constructor; [|apply IH; exact Hr].
+  unfold not_parent. intros E. apply is_dotdot_eq in E. subst c. discriminate.
 Qed.
 
-Lemma candidates_contained_partial cwd file_path lua_path req p :
-  require_filter_now req = true -> req <> [] ->
+(* what the filter guarantees about a string it lets through *)
+Lemma require_filter_now_spec req :
+  require_filter_now req = true ->
+  req <> [] /\ starts_with [47] req = false /\ Forall not_parent (components req) /\ contains [46; 47] req = false.
+Proof.
+  rewrite require_filter_now_unfold. intros H. apply negb_true_iff in H.
+  apply orb_false_iff in H as [He H]. apply orb_false_iff in H as [Hc H].
+  apply orb_false_iff in H as [Hs H]. apply orb_false_iff in H as [Hd _].
+  split; [intros ->; discriminate|]. split; [exact Hs|]. split; [|exact Hc].
+  rewrite <- split_on_components. apply no_dotdot_component. exact Hd.
+Qed.
+
+Lemma require_filter_now_rel req : require_filter_now req = true -> starts_with [47] req = false.
+Proof. intros H. apply require_filter_now_spec in H. tauto. Qed.
+
+(* the general statement: any load path, provided the instantiated tails bring no ".." *)
+Lemma candidates_contained_tail cwd file_path lua_path req p :
+  require_filter_now req = true ->
   (forall pat, In pat (split_on 59 lua_path) -> Forall not_parent (components (candidate_tail pat req))) ->
   In p (require_candidates_now file_path lua_path req) ->
   exists pat, In pat (split_on 59 lua_path) /\ under cwd (pattern_dir (dirname file_path) pat) p.
 Proof.
-  intros Hf Hne Ht Hin. unfold require_candidates_now, require_candidates in Hin.
+  intros Hf Ht Hin. destruct (require_filter_now_spec req Hf) as (Hne & Hrel & _ & _).
+  unfold require_candidates_now, require_candidates in Hin.
   apply in_map_iff in Hin as (pat & <- & Hpat).
   change path_sep_now with 59 in Hpat. exists pat. split; [exact Hpat|].
   change placeholder_now with 63.
-  apply candidate_under; [apply require_filter_now_rel; exact Hf | exact Hne | apply Ht; exact Hpat].
+  apply candidate_under; [exact Hrel | exact Hne | apply Ht; exact Hpat].
 Qed.
 
-(* sane load path + a require string without ".." component: the patched filter's domain *)
-Lemma candidates_contained_sane cwd file_path lua_path req p :
-  require_filter_now req = true -> req <> [] ->
-  Forall not_parent (components req) ->
+(* the full containment statement: every load path made of sane patterns *)
+Lemma candidates_contained cwd file_path lua_path req p :
+  require_filter_now req = true ->
   forallb pattern_saneb (split_on 59 lua_path) = true ->
   In p (require_candidates_now file_path lua_path req) ->
   exists pat, In pat (split_on 59 lua_path) /\ under cwd (pattern_dir (dirname file_path) pat) p.
 Proof.
-  intros Hf Hne Hreq Hs. apply candidates_contained_partial; try assumption.
-  intros pat Hpat. apply sane_tail; [|exact Hreq]. rewrite forallb_forall in Hs. apply Hs. exact Hpat.
+  intros Hf Hs. destruct (require_filter_now_spec req Hf) as (Hne & Hrel & Hreq & _).
+  apply candidates_contained_tail; [exact Hf|].
+  intros pat Hpat. apply sane_tail; try assumption. rewrite forallb_forall in Hs. apply Hs. exact Hpat.
 Qed.
 
 Lemma default_path_sane : forallb pattern_saneb (split_on 59 default_lua_path) = true.
@@ -296,50 +362,65 @@ Proof. vm_compute. reflexivity. Qed.
 
 (* with the default load path every candidate lies under the requiring file's directory *)
 Lemma candidates_default_under_base cwd file_path req p :
-  require_filter_now req = true -> req <> [] ->
-  Forall not_parent (components req) ->
+  require_filter_now req = true ->
   In p (require_candidates_now file_path default_lua_path req) ->
   under cwd (dirname file_path) p.
 Proof.
-  intros Hf Hne Hreq Hin.
-  destruct (candidates_contained_sane cwd file_path default_lua_path req p Hf Hne Hreq default_path_sane Hin)
+  intros Hf Hin.
+  destruct (candidates_contained cwd file_path default_lua_path req p Hf default_path_sane Hin)
     as (pat & Hpat & Hu).
   unfold under in *. rewrite pattern_dir_base in Hu; [exact Hu| |].
   - revert Hpat. vm_compute. intros [<-|[<-|[]]]; reflexivity.
   - revert Hpat. vm_compute. intros [<-|[<-|[]]]; reflexivity.
 Qed.
 
-(* ---- the containment statement without the extra hypotheses is false of today's code ---- *)
+(* a load path with a pattern that is not sane can leave the directory it names whatever the
+   filter does: the hypothesis on the load path cannot be dropped *)
+Lemma unsane_pattern_escapes :
+  exists pat req p, require_filter_now req = true /\ pattern_saneb pat = false /\
+    In p (require_candidates_now [47; 116; 47; 119; 47; 109; 46; 108; 117; 97] pat req) /\
+    underb [47; 116] (pattern_dir [47; 116; 47; 119] pat) p = false.
+Proof.
+  exists [63; 47; 46; 46; 47; 46; 46; 47; 120], [97], [47; 116; 47; 119; 47; 97; 47; 46; 46; 47; 46; 46; 47; 120].
+  vm_compute. repeat split; try reflexivity. left. reflexivity.   (* ?/../../x, require("a") *)
+Qed.
+
+(* ---- the filter before the fixes (only "./" and a leading "/") is refuted ---- *)
 Definition r_cwd : bytes := [47; 116].                                                             (* /t *)
 Definition r_main : bytes := [47; 116; 47; 119; 47; 112; 114; 111; 106; 47; 109; 46; 108; 117; 97]. (* /t/w/proj/m.lua *)
 Definition r_path : bytes := [63; 47; 105; 110; 105; 116; 46; 108; 117; 97].                         (* ?/init.lua *)
 
-(* require("..") passes the filter and names <dir>/../init.lua *)
-Lemma require_contained_refuted_dotdot :
-  exists req p, require_filter_now req = true /\ In p (require_candidates_now r_main r_path req) /\
+(* require("..") passed the old filter and names <dir>/../init.lua *)
+Lemma old_filter_refuted_dotdot :
+  exists req p, require_filter_old req = true /\ In p (require_candidates_now r_main r_path req) /\
     forallb (fun root => negb (underb r_cwd root p)) (require_roots (split_on 59 r_path) r_main) = true.
 Proof.
   exists [46; 46], [47; 116; 47; 119; 47; 112; 114; 111; 106; 47; 46; 46; 47; 105; 110; 105; 116; 46; 108; 117; 97].
   vm_compute. repeat split; try reflexivity. left. reflexivity.
 Qed.
 
-(* require("") passes the filter and names /init.lua *)
-Lemma require_contained_refuted_empty :
-  exists p, require_filter_now [] = true /\ In p (require_candidates_now r_main r_path []) /\
+(* require("") passed the old filter and names /init.lua *)
+Lemma old_filter_refuted_empty :
+  exists p, require_filter_old [] = true /\ In p (require_candidates_now r_main r_path []) /\
     forallb (fun root => negb (underb r_cwd root p)) (require_roots (split_on 59 r_path) r_main) = true.
 Proof.
   exists [47; 105; 110; 105; 116; 46; 108; 117; 97].
   vm_compute. repeat split; try reflexivity. left. reflexivity.
 Qed.
 
-(* with the default load path, require("..") makes picotool probe the parent directory *)
-Lemma require_contained_refuted_default :
-  exists p, require_filter_now [46; 46] = true /\ In p (require_candidates_now r_main default_lua_path [46; 46]) /\
+(* with the default load path, require("..") made picotool probe the parent directory *)
+Lemma old_filter_refuted_default :
+  exists p, require_filter_old [46; 46] = true /\ In p (require_candidates_now r_main default_lua_path [46; 46]) /\
     underb r_cwd (dirname r_main) p = false.
 Proof.
   exists [47; 116; 47; 119; 47; 112; 114; 111; 106; 47; 46; 46].
   vm_compute. repeat split; try reflexivity. left. reflexivity.
 Qed.
+
+(* today's filter rejects the three witnesses *)
+Lemma filter_rejects_witnesses :
+  require_filter_now [46; 46] = false /\ require_filter_now [] = false /\ require_filter_now [97; 47; 46; 46] = false.
+Proof. vm_compute. repeat split; reflexivity. Qed.
 
 (* ---- monitor soundness ---- *)
 Lemma under_any_spec cwd roots p :
@@ -379,4 +460,31 @@ Proof.
       destruct a; apply andb_true_iff in H as [H _]; apply under_any_spec; exact H.
     + cbn [nth_error] in Hi. cbn [firstn roots_after].
       destruct a0; apply andb_true_iff in H as [_ H]; eapply IH; eassumption.
+Qed.
+
+(* ---- packaged statements for Properties/C12.v ---- *)
+Lemma require_default_path_now cwd file_path req p :
+  require_filter_now req = true ->
+  In p (require_candidates_now file_path default_lua_path req) ->
+  under cwd (dirname file_path) p /\ locate cwd (dirname file_path) = locate cwd (dir_part file_path).
+Proof.
+  intros H1 H4. split; [exact (candidates_default_under_base cwd file_path req p H1 H4)|].
+  apply locate_dirname.
+Qed.
+
+Lemma require_variants_refuted :
+  (exists pat req p, require_filter_now req = true /\ pattern_saneb pat = false /\
+     In p (require_candidates_now [47; 116; 47; 119; 47; 109; 46; 108; 117; 97] pat req) /\
+     underb [47; 116] (pattern_dir [47; 116; 47; 119] pat) p = false)
+  /\ (exists req p, require_filter_old req = true /\ In p (require_candidates_now r_main r_path req) /\
+     forallb (fun root => negb (underb r_cwd root p)) (require_roots (split_on 59 r_path) r_main) = true)
+  /\ (exists p, require_filter_old [] = true /\ In p (require_candidates_now r_main r_path []) /\
+     forallb (fun root => negb (underb r_cwd root p)) (require_roots (split_on 59 r_path) r_main) = true)
+  /\ (exists p, require_filter_old [46; 46] = true /\
+     In p (require_candidates_now r_main default_lua_path [46; 46]) /\
+     underb r_cwd (dirname r_main) p = false)
+  /\ (require_filter_now [46; 46] = false /\ require_filter_now [] = false /\ require_filter_now [97; 47; 46; 46] = false).
+Proof.
+  exact (conj unsane_pattern_escapes (conj old_filter_refuted_dotdot (conj old_filter_refuted_empty
+          (conj old_filter_refuted_default filter_rejects_witnesses)))).
 Qed.
